@@ -2,7 +2,8 @@
 
 exit 0: every claimed obligation discharged / every bounded stand-in passed / only listed known findings fired
 exit 1: at least one `VIOLATION property=<id> replay=<path>` line
-exit 3: checker error (vacuity, engine/CPython disagreement, crash) - printed as CHECKER-ERROR
+exit 3: checker error (vacuity, crash of the harness or of a bounded check) - printed as CHECKER-ERROR; an engine/CPython
+        disagreement on a unit only makes that unit UNDECIDED (ENGINE-MISMATCH line)
 """
 from __future__ import annotations
 
